@@ -13,7 +13,7 @@ From Coq Require Import List Ascii ZArith Bool.
 From CGV Require Import Base.PyBase Base.PyVal Base.NxGraph Gen.WriterGen Dialect.DialectImpl Write.WriteImpl Write.FragDefs
      Write.FragCheck Write.FormatBondingSpec.
 From CGV Require Import Frag.NDict Frag.StripImpl Frag.FragText Write.FormatStripRound.
-From CGV Require Import Write.WriteProofs Write.PathRound Write.FragRead Write.CoarseChain Write.CoarseFrags Write.CoarseGraph Write.CoarseTrack Reader.Grammar Reader.ReaderImpl.
+From CGV Require Import Write.WriteProofs Write.PathRound Write.FragRead Write.CoarseChain Write.CoarseFrags Write.CoarseGraph Write.CoarseTrack Write.CoarseGraphX Reader.Grammar Reader.ReaderImpl.
 From CGV Require Import Write.WriteDefs Write.TreeDefs Write.TreeRound Write.RingRound Write.FullMachine Write.FullRound Write.FullDomain Reader.Lin.
 Import ListNotations.
 Open Scope Z_scope.
@@ -120,16 +120,17 @@ Example C08_coarse_fragments_nonvacuous :
              (read_coarse_fragments (fun _ => None) (S "{#X=[#A][$a]=[>]=[#B].[!x].[#PEO][#A]#[<],#PEO=[#PEO][<][#PEO][>]}")) = true.
 Proof. exact coarse_fragments_example. Qed.
 
-(** coarse fragment graphs of ANY shape (branches, rings), unbounded.  The fragment graph is a graph g of C07's domain
-    (names) without aromatic flags, decorated with a descriptor list per node ([decorate_graph F D g]: the attributes
-    read_fragment_cgsmiles builds).  For the DFS tree T the writer uses, with [items] the writer's item list and
-    [dl] = items paired with the descriptors in the order of writing: IF the decorated item list is a text of the
-    strip grammar ([dl_wf]: decidable; what it asks beyond what always holds is that no bond symbol is written
-    directly before "(", i.e. branch edges are single bonds -- the strip grammar has no symbol there), THEN
-    write_graph(name_attr='atomname') returns a text that the strip model splits into the clean text and the
-    descriptor dict {i: descriptors of the i-th written node}, the reader model reads the clean text as a graph
-    isomorphic to g ([graph_iso], C07's machinery), and the model of the coarse branch of fragment_iter returns
-    that graph post-processed with exactly this dict. *)
+(** coarse fragment graphs of ANY shape (branches, rings, ANY bond order 0..4 on ANY edge), unbounded, no side condition.
+    The fragment graph is a graph g of C07's domain (names) without aromatic flags, decorated with a descriptor list per
+    node ([decorate_graph F D g]: the attributes read_fragment_cgsmiles builds).  For the DFS tree T the writer uses, with
+    [items] the writer's item list and [dl] = items paired with the descriptors in the order of writing: the decorated
+    item list is a text of the strip grammar extended by a bond symbol directly in front of "(" ([dl_wfx]; the strip
+    component's [wfx] / C13_partial_branch_symbol: the writer puts the order of a branch edge there, `[#A]=([#B])[#C]`),
+    write_graph(name_attr='atomname') returns the rendering of that list, the strip model splits it into the clean text
+    and the descriptor dict {i: descriptors of the i-th written node}, the reader model reads the clean text as a graph
+    isomorphic to g ([graph_iso], C07's machinery), and the model of the coarse branch of fragment_iter returns that
+    graph post-processed with exactly this dict.  (The former hypotheses [dl_wf] / [nosymb] -- single bonds on branch
+    edges -- are gone: CoarseGraphX.ltrackx_tree holds for every tree.) *)
 Theorem C08_coarse_graph_roundtrip : forall fo a0 dh F (D : Z -> list dspec) g tr,
   fragment_node_parser fo [] = Ok a0 ->
   wf_C07 g = true -> (forall n, In n g -> aget (S "aromatic") (na n) = None) ->
@@ -138,35 +139,31 @@ Theorem C08_coarse_graph_roundtrip : forall fo a0 dh F (D : Z -> list dspec) g t
   exists T, NoDup (rkeys T) /\ (forall x, In x (rkeys T) <-> In x (node_keys g)) /\
     let items := the_items (name_of g) (esym_of g) (rsym_of g tr) T tr in
     let dl := combine items (map D (worder T)) in
-    (dl_wf ZStart 0 dl = true ->
-     exists txt h, write_graph_by (S "atomname") false dh (decorate_graph F D g) tr = Ok txt
+    dl_wfx ZStart 0 dl = true /\
+    exists txt h, txt = render (ditems dl)
+       /\ write_graph_by (S "atomname") false dh (decorate_graph F D g) tr = Ok txt
        /\ strip_bonding_descriptors fo txt = Ok (lins_str items, ddict 0 dl [], [], adict a0 0 dl [])
        /\ read_cgsmiles fo (lins_str items) = Ok h
        /\ graph_iso (fun k => base_attrs (name_of g k)) g h
-       /\ read_coarse_fragment fo F txt = Ok (post_fragment F h (ddict 0 dl []) (adict a0 0 dl []))).
-Proof. exact coarse_graph_roundtrip. Qed.
-(** the same with the side condition stated on the DFS tree only: no bond symbol on an edge to a child that is
-    written as a branch ([nosymb]: every child but the first-listed one is joined to its parent by a single bond; the
-    chain child, ring-closing edges and all other edges may have any order 0..4).  Everything else [dl_wf] asks
-    (balanced parentheses, names and ring markers in the strip grammar's form, no symbol behind a closing item ...)
-    is proved to hold for the writer's item list ([ltrack_tree], [dl_wf_track]). *)
-Theorem C08_coarse_graph_roundtrip_tree : forall fo a0 dh F (D : Z -> list dspec) g tr,
-  fragment_node_parser fo [] = Ok a0 ->
-  wf_C07 g = true -> (forall n, In n g -> aget (S "aromatic") (na n) = None) ->
-  ring_contract g (dfs_tree g) tr = true ->
-  (forall k, forallb d_ok (D k) = true) ->
-  exists T, NoDup (rkeys T) /\ (forall x, In x (rkeys T) <-> In x (node_keys g)) /\
-    let items := the_items (name_of g) (esym_of g) (rsym_of g tr) T tr in
-    let dl := combine items (map D (worder T)) in
-    (nosymb (esym_of g) T ->
-     exists txt h, write_graph_by (S "atomname") false dh (decorate_graph F D g) tr = Ok txt
-       /\ strip_bonding_descriptors fo txt = Ok (lins_str items, ddict 0 dl [], [], adict a0 0 dl [])
-       /\ read_cgsmiles fo (lins_str items) = Ok h
-       /\ graph_iso (fun k => base_attrs (name_of g k)) g h
-       /\ read_coarse_fragment fo F txt = Ok (post_fragment F h (ddict 0 dl []) (adict a0 0 dl []))).
-Proof. exact coarse_graph_roundtrip_tree. Qed.
-Example C08_coarse_graph_nosymb_nonvacuous : nosymb (esym_of ex_cg) ex_cT.
-Proof. exact coarse_graph_example_nosymb. Qed.
+       /\ read_coarse_fragment fo F txt = Ok (post_fragment F h (ddict 0 dl []) (adict a0 0 dl [])).
+Proof. exact coarse_graph_roundtrip_any. Qed.
+(** non-vacuity of the new part: double bonds on BOTH branch edges of one node (written "=(" twice), a ring closed by a
+    triple bond; the item list is outside the old [dl_wf] and inside [dl_wfx]; the text and what is read back *)
+Example C08_coarse_graph_symbol_nonvacuous :
+  wf_C07 ex_xg = true /\ ring_contract ex_xg (dfs_tree ex_xg) ex_xtr = true /\ dfs_edges ex_xg 0 = Ok (redges ex_xT)
+  /\ (let dl := combine (the_items (name_of ex_xg) (esym_of ex_xg) (rsym_of ex_xg ex_xtr) ex_xT ex_xtr) (map ex_xD (worder ex_xT)) in
+      dl_wf ZStart 0 dl = false /\ dl_wfx ZStart 0 dl = true)
+  /\ ex_xtext = Ok (S "[#A][$a]#1[#B]=([#D])=([#PEO]=[>].[!x])[#C]1")
+  /\ match read_coarse_fragment (fun _ => None) (S "X") (S "[#A][$a]#1[#B]=([#D])=([#PEO]=[>].[!x])[#C]1") with
+     | Ok h => map (fun n => (nk n, aget (S "atomname") (na n), aget (S "bonding") (na n), map (fun e => (fst e, aget (S "order") (snd e))) (nadj n))) h
+               = [(0, Some (VStr (S "A")), Some (VList [VStr (S "$a1")]), [(1, Some (VInt 1)); (4, Some (VInt 3))]);
+                  (1, Some (VStr (S "B")), None, [(0, Some (VInt 1)); (2, Some (VInt 2)); (3, Some (VInt 2)); (4, Some (VInt 1))]);
+                  (2, Some (VStr (S "D")), None, [(1, Some (VInt 2))]);
+                  (3, Some (VStr (S "PEO")), Some (VList [VStr (S ">2"); VStr (S "!x0")]), [(1, Some (VInt 2))]);
+                  (4, Some (VStr (S "C")), None, [(1, Some (VInt 1)); (0, Some (VInt 3))])]
+     | Err _ => False
+     end.
+Proof. exact coarse_graph_any_example. Qed.
 (** non-vacuity: a fragment with a branch, a ring closed by a double bond, a double bond on the chain, descriptors of
     three kinds and of orders 1, 2, 0: hypotheses hold, the text, and what is read back *)
 Example C08_coarse_graph_nonvacuous :
@@ -207,5 +204,4 @@ Print Assumptions C08_write_coarse_fragments.
 Print Assumptions C08_split_coarse_fragments.
 Print Assumptions C08_coarse_fragments_roundtrip.
 Print Assumptions C08_coarse_graph_roundtrip.
-Print Assumptions C08_coarse_graph_roundtrip_tree.
 Print Assumptions C08_descriptors_on_atom0.
